@@ -90,8 +90,15 @@ def try_update(m, b: Batch):
 
 
 def try_merge(m, others):
+    """merge_state(metrics: Iterable[Metric]): for about half of the (class, number of sources) combinations the sources are handed
+    over as a ONE-SHOT iterable (a generator) instead of a list — an implementation that walks `metrics` twice silently loses them.
+    The choice is a function of the class name and the number of sources, so a replay makes the same choice."""
     try:
-        m.merge_state(others)
+        others = list(others)
+        if (len(others) + len(type(m).__name__)) % 2 == 0:
+            m.merge_state(o for o in others)
+        else:
+            m.merge_state(others)
         return None
     except Exception as e:  # noqa: BLE001
         return (err_kind(e), repr(e)[:160])
